@@ -123,8 +123,13 @@ def replay(path):
 
 MANIFEST = dict(
     category="proof",
-    technique="Lean 4 theorems about the substitution model (value pinned; untouched keys kept) + outcome correspondence",
-    text="Theorems in Props/C04.lean state, for the substitution model, that a successful substitution of a plain value yields a "
-         "schema that accepts the value when the original did and whose untouched dict keys keep schema and optionality; tie: "
-         "structural comparison of the resulting schema between model and code; search: validate/generate/perturb on the real code.",
-    note="Partial under NoNaN (K6). Trusted: Lean kernel + standard axioms, hand model (sampling tie), codec.")
+    technique="Lean 4 theorems subst_accepts / subst_pins_* / subst_keeps_rest / subst_total over the substitution model + "
+              "result-schema correspondence",
+    text="Theorems (Props/C05.lean; Props/C04.lean is the index): for a plain value v that S accepts, S % v succeeds "
+         "(subst_total) and accepts v (subst_accepts); the result pins the scalar / every listed element / every given key "
+         "(subst_pins_scalar/_list/_dict), makes given keys required (subst_given_required) and keeps schema and "
+         "optionality of untouched keys (subst_keeps_rest). Tie: structural comparison of the resulting schema between "
+         "model and code; search: validate / generate / perturb on S % v on the real code.",
+    note="Partial: hypotheses NoNaN (K6), NoContains (K12: contains-form picks the first substitutable window), "
+         "NoOpenDictAlt (K13: a relaxed-dict alternative is dropped) — each with a counter-example theorem replayed on the "
+         "real code. Trusted: Lean kernel + standard axioms, hand model (sampling tie), codec.")
